@@ -2,9 +2,9 @@ package main
 
 import (
 	"fmt"
-	"sort"
 	"go/token"
 	"go/types"
+	"sort"
 	"strings"
 
 	"golang.org/x/tools/go/ssa"
@@ -357,7 +357,7 @@ func wiringType(t types.Type) (bool, string) {
 // appOptionsRule: the application constructor reads node-local configuration (app.toml / flags) only through the audited
 // keys below; each is audited not to influence block results.
 var auditedAppOptions = map[string]string{
-	"\"evm.tracer\"":                       "EVM tracer of the ethermint keeper: only produces debug traces, off the state machine",
+	"\"evm.tracer\"":                      "EVM tracer of the ethermint keeper: only produces debug traces, off the state machine",
 	"\"x-crisis-skip-assert-invariants\"": "crisis module: skips the invariant assertion at genesis (no state)",
 }
 
@@ -788,4 +788,142 @@ func resultUsedAfterErrorCheck(c *Check, rule string, fns []*ssa.Function) {
 		}
 	}
 	c.Req(n > 0, rule, "dereferences of (pointer, error) results examined", token.NoPos, fmt.Sprintf("%d dereference(s), %d unguarded", n, bad), "no (pointer, error) result is dereferenced in scope (anchor drifted)")
+}
+
+// stopValue: the boolean with which the callback parameter #i of g ends g's iteration ("true", "false", or "" when g
+// does not branch out of its loop on the callback's result). The callback's call site is followed through one
+// forwarding level; the stop value is the outcome whose branch cannot come back to the call.
+func stopValue(p *Program, g *ssa.Function, i int, depth int) string {
+	if g == nil || len(g.Blocks) == 0 || i >= len(g.Params) || depth > 3 {
+		return ""
+	}
+	param := g.Params[i]
+	fa := p.FA(g)
+	for _, b := range g.Blocks {
+		for _, ins := range b.Instrs {
+			call, ok := ins.(*ssa.Call)
+			if !ok {
+				continue
+			}
+			if call.Call.Value != ssa.Value(param) {
+				if h := p.resolveCallee(&call.Call); h != nil && inTeleport(h) && h != g {
+					for j, a := range call.Call.Args {
+						if a == ssa.Value(param) {
+							if s := stopValue(p, h, j, depth+1); s != "" {
+								return s
+							}
+						}
+					}
+				}
+				continue
+			}
+			if call.Referrers() == nil {
+				continue
+			}
+			for _, r := range *call.Referrers() {
+				neg := false
+				var iff *ssa.If
+				switch t := r.(type) {
+				case *ssa.If:
+					iff = t
+				case *ssa.UnOp:
+					if t.Op == token.NOT && t.Referrers() != nil {
+						for _, rr := range *t.Referrers() {
+							if x, ok := rr.(*ssa.If); ok {
+								iff, neg = x, true
+							}
+						}
+					}
+				}
+				if iff == nil {
+					continue
+				}
+				tb, fb := iff.Block().Succs[0], iff.Block().Succs[1]
+				back := func(s *ssa.BasicBlock) bool { return s == b || fa.reachFrom(s)[b.Index] }
+				switch {
+				case !back(tb) && back(fb):
+					if neg {
+						return "false"
+					}
+					return "true"
+				case back(tb) && !back(fb):
+					if neg {
+						return "true"
+					}
+					return "false"
+				}
+			}
+		}
+	}
+	return ""
+}
+
+// collectorsNeverStop: a closure that collects into a captured variable and is handed to an iteration helper never
+// returns the value with which that helper ends the iteration: the entries after the first collected one would be missing.
+func collectorsNeverStop(c *Check, rule string, fns []*ssa.Function) int {
+	n := 0
+	for _, fn := range fns {
+		if len(fn.Blocks) == 0 {
+			continue
+		}
+		ord := map[*ssa.Function]int{}
+		for _, cs := range c.P.CallsInOwn(fn) {
+			g := c.P.resolveCallee(cs.Ins.Common())
+			if g == nil || !inTeleport(g) {
+				continue
+			}
+			ord[g]++
+			for i, a := range cs.Ins.Common().Args {
+				mc, ok := a.(*ssa.MakeClosure)
+				if !ok {
+					continue
+				}
+				cl := mc.Fn.(*ssa.Function)
+				res := cl.Signature.Results()
+				if res.Len() != 1 || !types.Identical(res.At(0).Type().Underlying(), types.Typ[types.Bool]) {
+					continue
+				}
+				collects := false
+				for _, b := range cl.Blocks {
+					for _, ins := range b.Instrs {
+						if st, ok := ins.(*ssa.Store); ok {
+							if _, isFree := st.Addr.(*ssa.FreeVar); isFree {
+								if _, isSlice := st.Val.Type().Underlying().(*types.Slice); isSlice {
+									collects = true
+								}
+							}
+						}
+					}
+				}
+				if !collects {
+					continue
+				}
+				stop := stopValue(c.P, g, i, 0)
+				if stop == "" {
+					continue
+				}
+				n++
+				c.Touch(cl)
+				bad := token.NoPos
+				for _, b := range cl.Blocks {
+					ret, ok := b.Instrs[len(b.Instrs)-1].(*ssa.Return)
+					if !ok || len(ret.Results) != 1 {
+						continue
+					}
+					vals := []ssa.Value{ret.Results[0]}
+					if ph, ok := ret.Results[0].(*ssa.Phi); ok {
+						vals = ph.Edges
+					}
+					for _, v := range vals {
+						if k, ok := v.(*ssa.Const); !ok || k.Value == nil || k.Value.String() == stop {
+							bad = ret.Pos()
+						}
+					}
+				}
+				c.Req(bad == token.NoPos, rule, fmt.Sprintf("%s/collector passed to %s#%d", funcName(fn), funcName(g), ord[g]), cs.Ins.Pos(), "never returns "+stop+" (the value that ends "+funcName(g)+")",
+					"the collecting callback can return "+stop+", which ends the iteration of "+funcName(g)+": entries after that one are not collected")
+			}
+		}
+	}
+	return n
 }
